@@ -343,6 +343,17 @@ class Unit:
             header = header[:hm.end()] + iter_name + ': ' + header[hm.end():]
         self.text = self.text[:lp] + header.rstrip() + '\n' + spec.rstrip() + '\n' + self.text[lbo:]
 
+    def loop_body_start(self, fnref, ordinal, text):
+        """Insert text as first statement of the body of the ordinal-th loop (textual order)."""
+        s, p, bo, bc = self._fn_span(fnref)
+        ms = list(re.finditer(r'(?<![A-Za-z0-9_])(while|for|loop)(?![A-Za-z0-9_])', s.code[bo:bc]))
+        if ordinal >= len(ms):
+            raise ExtractError('unit %s: fn %s has %d loops, wanted #%d' % (self.name, fnref, len(ms), ordinal))
+        lbo = s.body_open(bo + ms[ordinal].start())
+        if s.code[lbo] != '{':
+            raise ExtractError('loop without body')
+        self.text = self.text[:lbo + 1] + '\n' + text + '\n' + self.text[lbo + 1:]
+
     def _anchor(self, fnref, anchor, nth=0, count=1):
         s, p, bo, bc = self._fn_span(fnref)
         ms = list(re.finditer(anchor, self.text[bo:bc], re.S))
